@@ -15,8 +15,10 @@ first argument under its second, creating it when missing (checked, then used as
 NOT translated: reference counting (Py_INCREF/DECREF/XDECREF/CLEAR are skipped: C11's subject) and the
 failure branches of calls that only fail on memory exhaustion or on exceptions raised by foreign code
 (PyDict_New, PyTuple_New, PySequence_Tuple, PyDict_SetItem, PyDict_GetItemWithError + PyErr_Occurred,
-providedBy, PyObject_GetAttr(__self__), the _uncached_* callbacks, _getcache/_subcache): their results are
-taken to be non-NULL / non-negative, so ``if (x == NULL) return NULL`` after them is dead at this level.
+providedBy, PyObject_GetAttr(__self__), PyObject_IsTrue, the _uncached_* callbacks, _getcache/_subcache): their results
+are taken to be non-NULL / non-negative, so ``if (x == NULL) return NULL`` / ``if (truth < 0) ...`` after them
+is dead at this level.  An int local may hold the outcome of a test (``int truth = PyObject_IsTrue(name);``,
+a comparison, a && / || / ! of those) and be branched on later (``if (truth)``, ``truth != 0`` ...).
 Translated error paths: the ValueError for a non-string name, and NULL results of _lookup / _lookup1 /
 PyObject_CallFunctionObjArgs, which must be tested before the value is used.
 PyObject_CallMethodObjArgs(self, str_uncached_X, ...) is the parameter u_X followed by the effect of
@@ -51,6 +53,7 @@ UNCACHED = {"str_uncached_lookup": ("u_lookup", ["speclist", "spec", "name"], "e
             "str_uncached_lookupAll": ("u_lookupAll", ["speclist", "spec"], "pairs"),
             "str_uncached_subscriptions": ("u_subscriptions", ["speclist", "ospec"], "values")}
 SLOTS = {"_cache": "top", "_mcache": "mtop", "_scache": "stop"}
+INT_TESTS = {"PyObject_IsTrue", "PyUnicode_Check", "PyObject_TypeCheck"}     # int-valued, bind nothing
 
 
 class V:
@@ -159,7 +162,38 @@ class Exec:
                 return self.child(self.val(args[0], st), self.val(args[1], st), st)
             if name in ("PyDict_GetItem", "PyDict_GetItemWithError") and len(args) == 2:
                 return self.getitem(self.val(args[0], st), self.val(args[1], st), st)
+            if name in INT_TESTS:
+                return self.intbool(e, st)
+        if k == "bin" and e[1] in ("==", "!=", "&&", "||"):
+            return self.intbool(e, st)
+        if k == "un" and e[1] == "!":
+            return self.intbool(e, st)
         self.abort("unsupported expression", e)
+
+    def intbool(self, e, st):
+        """an int local holding the outcome of a test (``int truth = PyObject_IsTrue(name);``): the test is
+        re-played where the variable is branched on, over the values its operands had at the assignment.
+        Only tests that bind nothing are accepted (no NULL test of a possibly-NULL lookup result)."""
+        def pure(x):
+            if x[0] == "call":
+                return x[1] in INT_TESTS and all(a[0] in ("id", "un", "cast") for a in x[2])
+            if x[0] == "bin" and x[1] in ("&&", "||"):
+                return pure(x[2]) and pure(x[3])
+            if x[0] == "un" and x[1] == "!":
+                return pure(x[2])
+            if x[0] == "bin" and x[1] in ("==", "!="):
+                for o in (x[2], x[3]):
+                    if o[0] == "id" and o[1] in st.env and st.env[o[1]].kind in ("maybe", "cretv", "maybechild", "uninit"):
+                        return False
+                    if o[0] not in ("id", "num", "call"):
+                        return False
+                    if o[0] == "call" and o[1] != "PyTuple_GET_SIZE":
+                        return False
+                return True
+            return False
+        if not pure(e):
+            self.abort("unsupported int-valued expression", e)
+        return V("intbool", None, ast=e, env=dict(st.env))
 
     def child(self, d, k, st):
         if d.kind == "top" and k.kind == "spec":
@@ -204,6 +238,31 @@ class Exec:
             return self.cond(e[2], st, lambda s: self.cond(e[3], s, kt, kf, ind + 1), kf, ind)
         if k == "un" and e[1] == "!":
             return self.cond(e[2], st, kf, kt, ind)
+        if k == "id" and e[1] in st.env and st.env[e[1]].kind == "intbool":
+            v = st.env[e[1]]
+            tmp = st.copy()
+            tmp.env = dict(v.env)
+
+            def back(k_):
+                def go(s2):
+                    cur = st.copy()
+                    cur.facts, cur.supers = dict(s2.facts), dict(s2.supers)
+                    return k_(cur)
+                return go
+            return self.cond(v.ast, tmp, back(kt), back(kf), ind)
+        if k == "bin" and e[1] in ("<", ">", "==", "!=", "<=", ">=") and e[2][0] == "id" and e[2][1] in st.env \
+                and st.env[e[2][1]].kind == "intbool":
+            op, rhs = e[1], e[3]
+            neg1 = rhs == ("un", "-", ("num", 1))
+            if (op == "<" and rhs == ("num", 0)) or (op in ("==", "<=") and neg1):
+                return kf(st)          # the test itself failed (foreign exception): not translated
+            if (op == ">=" and rhs == ("num", 0)) or (op in ("!=", ">") and neg1):
+                return kt(st)
+            if (op in ("!=", ">") and rhs == ("num", 0)) or (op in ("==", ">=") and rhs == ("num", 1)):
+                return self.cond(e[2], st, kt, kf, ind)
+            if (op in ("==", "<=") and rhs == ("num", 0)) or (op == "<" and rhs == ("num", 1)):
+                return self.cond(e[2], st, kf, kt, ind)
+            self.abort("unsupported test of an int-valued local", e)
         if k == "id":                       # pointer used as a truth value
             return self.cond(("bin", "!=", e, ("id", "NULL", 0)), st, kt, kf, ind)
         if k == "bin" and e[1] in ("==", "!="):
@@ -230,8 +289,14 @@ class Exec:
                     self.abort("default_ compared with an object without a NULL test")
                 return "%sif darg_is %s %s then\n%s\n%selse\n%s" % (pad, va.e, vb.e, kt(st), pad, kf(st))
             self.abort("unsupported comparison", e)
-        if k == "bin" and e[1] == "<" and e[3] == ("num", 0) and self.val(e[2], st).kind == "status":
-            return kf(st)
+        if k == "bin" and e[2][0] == "id" and e[2][1] in st.env and st.env[e[2][1]].kind == "status":
+            # PyDict_SetItem only fails on memory exhaustion / a foreign exception: status is 0
+            if (e[1] == "<" and e[3] == ("num", 0)) or (e[1] == "!=" and e[3] == ("num", 0)) \
+                    or (e[1] == "==" and e[3] == ("un", "-", ("num", 1))):
+                return kf(st)
+            if (e[1] == "==" and e[3] == ("num", 0)) or (e[1] == ">=" and e[3] == ("num", 0)):
+                return kt(st)
+            self.abort("unsupported test of a status", e)
         if k == "call":
             name, args = e[1], e[2]
             if name == "PyErr_Occurred" and not args:
